@@ -17,6 +17,7 @@ type c10Source struct {
 	reads     int
 	faultRead int // index of the Read call that fails (-1 never)
 	short     bool // Reads deliver at most 100 bytes per call (io.Reader allows short reads)
+	linky     bool // listed entries of regular files report link-like Info (as os.FS does for symbolic links): Info() is not Stat()
 	inCopy    int // ghost: copies of the watched file in progress
 	maxInCopy int
 	watch     string
@@ -82,8 +83,34 @@ func (f *c10SrcFile) Seek(offset int64, whence int) (int64, error) {
 }
 
 func (f *c10SrcFile) ReadDir(n int) ([]hackpadfs.DirEntry, error) {
-	return hackpadfs.ReadDirFile(f.File, n)
+	entries, err := hackpadfs.ReadDirFile(f.File, n)
+	if f.s.linky {
+		for i, e := range entries {
+			if !e.IsDir() {
+				entries[i] = c10LinkEntry{e}
+			}
+		}
+	}
+	return entries, err
 }
+
+// c10LinkEntry: a directory entry whose Info() describes the entry itself and not what Stat of the name
+// reports (the documented behaviour of os.ReadDir for symbolic links: DirEntry.Info is Lstat-like).
+// A transparent cache answers Stat and Open from the source's Stat/Open, never from such an Info.
+type c10LinkEntry struct{ hackpadfs.DirEntry }
+
+func (e c10LinkEntry) Info() (hackpadfs.FileInfo, error) {
+	info, err := e.DirEntry.Info()
+	if err != nil {
+		return nil, err
+	}
+	return c10LinkInfo{info}, nil
+}
+
+type c10LinkInfo struct{ hackpadfs.FileInfo }
+
+func (i c10LinkInfo) Size() int64             { return 7 }
+func (i c10LinkInfo) Mode() hackpadfs.FileMode { return i.FileInfo.Mode() | hackpadfs.ModeSymlink }
 
 // c10Minimal: a cache store exposing only what the constructor requires (Open, OpenFile, Mkdir)
 type c10Minimal struct{ fs *mem.FS }
@@ -155,6 +182,11 @@ func VerifC10Seq() {
 	if verifParam("SHORTREADS") != 0 {
 		counting.short = true
 		verifTag("source", "short reads")
+	}
+	if verifParam("LINKY") != 0 {
+		counting.linky = true
+		verifTag("source", "link-like entry infos")
+		verifAssume(size == 1 || size == 513)
 	}
 	storeMem, err := mem.NewFS()
 	verifAssert(err == nil, "NewFS")
